@@ -711,3 +711,216 @@ pub fn describe_moves(order: &[u32], names: &[String]) -> Vec<(String, usize)> {
         .map(|(i, x)| (names.get(*x as usize).cloned().unwrap_or_else(|| format!("#{}", x)), i))
         .collect()
 }
+
+// ---------------------------------------------------------------------------------------------
+// self-tests of the seam semantics (cargo test)
+// ---------------------------------------------------------------------------------------------
+#[cfg(test)]
+mod tests {
+    use super::*;
+    use crate::seams::shadow_std as sstd;
+    use std::collections::BTreeMap as Map;
+    use std::io::{Read, Write};
+
+    fn empty_image() -> Arc<FsImage> {
+        Arc::new(FsImage {
+            crate_dir: "/nonexistent".into(),
+            files: Map::new(),
+            dirs: Map::new(),
+            digest: 0,
+            bytes: 0,
+            special: Map::new(),
+        })
+    }
+
+    /// run `f` as a simulated program under the thread scheduler with the given schedule
+    fn simulate(schedule: &[Decision], f: fn()) -> (World, std::thread::Result<()>) {
+        let mut w = World::new(empty_image(), replay_mode(schedule), false, false);
+        w.under_shuttle = true;
+        world::install(w);
+        let r = catch_unwind(AssertUnwindSafe(|| {
+            let runner = shuttle::Runner::new(SimSched { started: false }, shuttle_config());
+            runner.run(f);
+        }));
+        (world::uninstall(), r)
+    }
+
+    #[test]
+    fn recv_timeout_times_out_naturally_when_nobody_else_can_run() {
+        let (w, r) = simulate(&[], || {
+            let (tx, rx) = sstd::sync::mpsc::channel::<u32>();
+            // the sender is alive but nobody will ever send
+            let got = rx.recv_timeout(std::time::Duration::from_millis(50));
+            assert!(matches!(got, Err(sstd::sync::mpsc::RecvTimeoutError::Timeout)));
+            drop(tx);
+        });
+        assert!(r.is_ok());
+        assert_eq!(w.stats.timeouts_natural, 1);
+        assert!(!w.stalled);
+    }
+
+    #[test]
+    fn recv_timeout_waits_for_a_runnable_sender_unless_a_stall_is_injected() {
+        fn prog() {
+            let (tx, rx) = sstd::sync::mpsc::channel::<u32>();
+            let h = sstd::thread::spawn(move || {
+                tx.send(7).unwrap();
+            });
+            let got = rx.recv_timeout(std::time::Duration::from_millis(50));
+            h.join().unwrap();
+            crate::seams::emit_str(&format!("{:?}", got.ok()));
+        }
+        // default schedule: no stall -> the value arrives
+        let (w, r) = simulate(&[], prog);
+        assert!(r.is_ok());
+        assert_eq!(w.out, "Some(7)");
+        // injected stall at the first timed wait that could have timed out -> Timeout
+        let (w, r) = simulate(&[Decision::Timeout { fired: true }], prog);
+        assert!(r.is_ok());
+        if w.stats.timeouts_offered > 0 {
+            assert_eq!(w.out, "None");
+            assert!(w.stalled);
+        }
+    }
+
+    #[test]
+    fn condvar_wait_timeout_sees_a_notification_and_times_out_without_one() {
+        let (w, r) = simulate(&[], || {
+            use sstd::sync::{Arc, Condvar, Mutex};
+            let pair = Arc::new((Mutex::new(false), Condvar::new()));
+            let p2 = pair.clone();
+            let h = sstd::thread::spawn(move || {
+                *p2.0.lock().unwrap() = true;
+                p2.1.notify_all();
+            });
+            let mut g = pair.0.lock().unwrap();
+            let mut timed_out = 0;
+            while !*g {
+                let (g2, r) = pair.1.wait_timeout(g, std::time::Duration::from_millis(10)).unwrap();
+                g = g2;
+                if r.timed_out() {
+                    timed_out += 1;
+                }
+            }
+            drop(g);
+            h.join().unwrap();
+            // nobody notifies any more: a further timed wait can only time out
+            let g = pair.0.lock().unwrap();
+            let (_g, r) = pair.1.wait_timeout(g, std::time::Duration::from_millis(10)).unwrap();
+            assert!(r.timed_out());
+            crate::seams::emit_str(&format!("{}", timed_out));
+        });
+        assert!(r.is_ok(), "{:?}", world::PANIC_INFO.with(|p| p.borrow().clone()));
+        assert_eq!(w.out, "0");
+    }
+
+    #[test]
+    fn deadlock_is_reported() {
+        let (_w, r) = simulate(&[], || {
+            let (_tx, rx) = sstd::sync::mpsc::channel::<u32>();
+            let _ = rx.recv(); // sender alive, nobody sends, no deadline
+        });
+        assert!(r.is_err());
+    }
+
+    #[test]
+    fn formatter_child_is_an_identity_filter_and_may_be_missing() {
+        fn prog() {
+            let mut child = match sstd::process::Command::new("rustfmt")
+                .stdin(sstd::process::Stdio::piped())
+                .stdout(sstd::process::Stdio::piped())
+                .spawn()
+            {
+                Ok(c) => c,
+                Err(_) => {
+                    crate::seams::emit_str("missing");
+                    return;
+                }
+            };
+            let mut stdin = child.stdin.take().unwrap();
+            let feeder = sstd::thread::spawn(move || {
+                stdin.write_all(b"pub const X: u8 = 1;").unwrap();
+            });
+            let mut out = String::new();
+            child.stdout.take().unwrap().read_to_string(&mut out).unwrap();
+            feeder.join().unwrap();
+            assert!(child.wait().unwrap().success());
+            crate::seams::emit_str(&out);
+        }
+        let (w, r) = simulate(&[], prog);
+        assert!(r.is_ok());
+        assert_eq!(w.out, "pub const X: u8 = 1;");
+        let (w, r) = simulate(
+            &[Decision::Program {
+                name: "rustfmt".into(),
+                available: false,
+            }],
+            prog,
+        );
+        assert!(r.is_ok());
+        assert_eq!(w.out, "missing");
+        assert!(w.missing_program);
+    }
+
+    #[test]
+    fn output_is_frozen_at_process_exit_and_when_main_returns() {
+        let (w, _r) = simulate(&[], || {
+            let mut b = std::io::BufWriter::new(sstd::io::stdout());
+            b.write_all(b"buffered").unwrap();
+            crate::seams::emit_str("printed;");
+            sstd::process::exit(0);
+        });
+        assert_eq!(w.out, "printed;");
+        let (w, r) = simulate(&[], || {
+            sstd::thread::spawn(|| {
+                sstd::thread::yield_now();
+                crate::seams::emit_str("late");
+            });
+            crate::seams::emit_str("main;");
+            crate::seams::main_returned();
+        });
+        assert!(r.is_ok());
+        assert_eq!(w.out, "main;");
+    }
+
+    #[test]
+    fn short_writes_lose_data_only_for_write_not_for_write_all() {
+        let plan = [Decision::Open {
+            path: "<stdout>".into(),
+            io_seed: 12345,
+        }];
+        let payload: String = "x".repeat(4000);
+        let (w, _) = simulate(&plan, || {
+            let mut o = sstd::io::stdout();
+            o.write_all("x".repeat(4000).as_bytes()).unwrap();
+        });
+        assert_eq!(w.out, payload);
+        let (w, _) = simulate(&plan, || {
+            let mut o = sstd::io::stdout();
+            let mut left = 40;
+            // a single write may be interrupted or short
+            while left > 0 {
+                match o.write("x".repeat(4000).as_bytes()) {
+                    Ok(_) => break,
+                    Err(_) => left -= 1,
+                }
+            }
+        });
+        assert!(w.out.len() <= 4000);
+        assert!(w.stats.short_writes + w.stats.write_eintr > 0 || w.out.len() == 4000);
+    }
+
+    #[test]
+    fn replay_plan_routes_decisions() {
+        let p = world::ReplayPlan::new(&[
+            Decision::Sched { at: 3, task: 2 },
+            Decision::Open { path: "a".into(), io_seed: 9 },
+            Decision::Cores { n: 24 },
+            Decision::Sched { at: 5, task: world::NO_DEVIATION },
+        ]);
+        assert_eq!(p.sched.get(&3), Some(&2));
+        assert_eq!(p.sched.len(), 1);
+        assert_eq!(p.opens["a"].front(), Some(&9));
+        assert_eq!(p.q.len(), 1);
+    }
+}
